@@ -1435,6 +1435,10 @@ fn with_parens(expr: &Expression) -> Markup {
         _ if is_temperature_sugar(expr) => {
             m::operator("(") + expr.pretty_print() + m::operator(")")
         }
+        // a negative literal only arises from a unicode exponent like ⁻¹
+        Expression::Scalar { value, .. } if value.to_f64() < 0.0 => {
+            m::operator("(") + expr.pretty_print() + m::operator(")")
+        }
         Expression::Scalar { .. }
         | Expression::Identifier { .. }
         | Expression::UnitIdentifier { .. }
